@@ -61,6 +61,7 @@ from pip._internal.cli.cmdoptions import src
 from vsc.model.solvegroup_swizzler_range import SolveGroupSwizzlerRange
 from vsc.model.solvegroup_swizzler_partsel import SolveGroupSwizzlerPartsel
 from vsc.impl.ctor import glbl_debug, glbl_solvefail_debug
+from vsc.impl import verif_hooks
 
 
 def _btor_opt(name):
@@ -121,6 +122,9 @@ class Randomizer(RandIF):
             for uf in ri.unconstrained():
                 print("Unconstrained: " + uf.fullname)
                
+        if verif_hooks.ENABLED:
+            verif_hooks.emit("solve_begin", randomizer=self, ri=ri, bound_m=bound_m)
+
         # Assign values to the unconstrained fields first
         uc_rand = list(filter(lambda f:f.is_used_rand, ri.unconstrained()))
         for uf in uc_rand:
@@ -194,6 +198,13 @@ class Randomizer(RandIF):
                 if n_fields > max_fields or rs.order != -1:
                     break
                 
+            if verif_hooks.ENABLED:
+                verif_hooks.emit("batch_built", randomizer=self, btor=btor,
+                    randsets=ri.randsets()[start_rs_i:rs_i],
+                    constraint_l=constraint_l,
+                    soft_constraint_l=soft_constraint_l,
+                    bound_m=bound_m)
+
             for c in constraint_l:
                 try:
                     btor.Assume(c[1])
@@ -266,6 +277,10 @@ class Randomizer(RandIF):
                     for c in soft_constraint_l:
                         btor.Assert(c[1])
                 
+            if verif_hooks.ENABLED:
+                verif_hooks.emit("batch_solved", randomizer=self, btor=btor,
+                    randsets=ri.randsets()[start_rs_i:rs_i])
+
 #            btor.Sat()
             x = start_rs_i
             while x < rs_i:
